@@ -284,6 +284,10 @@ func evalPathStep(step jparse.Node, data reflect.Value, env *environment, lastSt
 func evalOverArray(node jparse.Node, data reflect.Value, env *environment) ([]reflect.Value, error) {
 	var results []reflect.Value
 
+	// The array may be wrapped in an interface (e.g. when it
+	// is an element of another array).
+	data = jtypes.Resolve(data)
+
 	for i, N := 0, data.Len(); i < N; i++ {
 
 		res, err := eval(node, data.Index(i), env)
@@ -684,6 +688,7 @@ func applyFilter(filter jparse.Node, items reflect.Value, env *environment) (ref
 
 		switch {
 		case jtypes.IsArrayOf(res, jtypes.IsNumber):
+			res = jtypes.Resolve(res)
 			for j, N := 0, res.Len(); j < N; j++ {
 
 				n, _ := jtypes.AsNumber(res.Index(j))
